@@ -175,7 +175,7 @@ func rtClasses(c CaseRT, info rgen.MsgInfo) (classes []string, nontrivial bool) 
 	case "UTC":
 		classes = append(classes, "zone-utc")
 	default:
-		if len(c.Zone) > 6 && c.Zone[:6] == "fixed:" {
+		if len(c.Zone) > 6 && (c.Zone[:6] == "fixed:" || c.Zone[:6] == "named:") {
 			classes = append(classes, "zone-fixed")
 		} else {
 			classes = append(classes, "zone-dst")
@@ -241,7 +241,7 @@ func propC02(t *rapid.T) {
 // size - against the same reference transcription. Every (kind, size) combination runs in every tier (rapid.checks cases each).
 func TestC02Large(t *testing.T) {
 	kinds := []string{"trips+vehicles", "stop-time-updates", "selectors", "alerts"}
-	sizes := [][]int{{9000, 70000}, {20000, 140000, 300000}, {20000, 70000}, {9000, 70000}}
+	sizes := [][]int{{9000, 100000}, {20000, 140000, 300000}, {20000, 70000}, {9000, 70000}}
 	for what := range kinds {
 		for _, n := range sizes[what] {
 			what, n := what, n
